@@ -500,7 +500,7 @@ Lemma tmpp_under_dir k q : plain k -> is_clean_abs q = true -> at_or_under (tmpp
 Proof.
   intros Pk Hq Hau. apply clean_abs_repr in Hq as (qs & Pq & ->). unfold tmpp in Hau.
   apply at_or_under_pa in Hau as (r & ->); [| |exact Pq].
-  - exists r. rewrite <- app_assoc. split; [|reflexivity]. apply plains_app in Pq. tauto.
+  - exists r. rewrite <- app_assoc. split; [|reflexivity]. apply plains_app in Pq as [_ Pq]. exact Pq.
   - apply plains_dirty; [exact HLc|exact Pk|constructor; [apply plain_lcf_tmp|constructor]].
 Qed.
 
@@ -713,3 +713,42 @@ Proof.
            (legal_tok new Ln Hn) Hkids Hkids_all Hl).
 Qed.
 End E2.
+
+Theorem rename_exact_run e c um a b0 s :
+  cfg_ok c = true -> fs_ok c (w_fs (s_w s)) = true -> LC.nodup_paths (map fst (w_fs (s_w s))) = true ->
+  no_stale_tmp c (w_fs (s_w s)) (CRename a b0) = true -> e_pretend e = false ->
+  match run_command e c um (CRename a b0) s with
+  | (Ret _, s') => C02.rename_exact c (w_fs (s_w s)) (w_fs (s_w s')) a b0 = true
+  | _ => True
+  end.
+Proof.
+  intros Hcfg Hfs Hnd Hst Hnp.
+  destruct (cfg_ok_spec c Hcfg) as (Lc & bsr & wsr & usr & Ec & bpr & gpr & Bc & PL & EL & _ & _ & _ & HE & HBP & HGP & _).
+  destruct (fs_ok_spec c Lc _ PL EL Hfs) as (Hc0 & Hn0 & Hcl0).
+  cbn [run_command].
+  apply (with_layers_post c um (fun ld => rename_layer e c ld a b0) s
+           (fun w => C02.rename_exact c (w_fs (s_w s)) (w_fs w) a b0 = true)).
+  intros ld HLD HCI HP HCo.
+  eapply post_conseq;
+    [apply (rename_exact_post c Lc PL EL Ec bpr gpr HE HBP HGP (w_fs (s_w s)) e ld a b0 Hc0 Hn0 Hcl0)| |]; cbv beta; auto.
+  - now apply nodup_paths_NoDup.
+  - intros l' Hl' Hab [p m] Hin. cbn [fst].
+    cbn [no_stale_tmp] in Hst. unfold C02.layers_of in Hst. rewrite forallb_forall in Hst. specialize (Hst l' Hl').
+    apply negb_true_iff in Hst.
+    assert (Eab : (beq (l_name l') a || beq (l_base l') a) = true).
+    { apply orb_true_iff. destruct Hab as [<-|<-]; [left|right]; apply beq_refl. }
+    rewrite Eab in Hst. cbn [andb] in Hst.
+    (* the layer's name is a plain component, its layerconfig path is the canonical one *)
+    pose proof (rlf_bcons c _ l' Hl') as Hb. fold (G c (w_fs (s_w s))) in Hb.
+    destruct (G_some_child c Lc PL EL _ _ _ Hc0 Hn0 Hb) as (Pn & _).
+    rewrite (layerconfig_path_eq c Lc PL EL l' (l_name l') (rlf_paths c _ l' Hl') Pn), tmp_path_eq in Hst.
+    assert (Htmp : fs_get (w_fs (s_w s)) (tmpp Lc (l_name l')) = None).
+    { unfold exists_, lstat in Hst. destruct (fs_get (w_fs (s_w s)) (tmpp Lc (l_name l'))); [discriminate|reflexivity]. }
+    destruct (at_or_under (tmpp Lc (l_name l')) p) eqn:Ea; [|reflexivity]. exfalso.
+    destruct (tmpp_under_dir Lc PL (l_name l') p Pn (Hc0 _ _ Hin) Ea) as (r & Pr & ->).
+    assert (PT : plains (Lc ++ [l_name l'; lcf ++ tmp_suffix])).
+    { apply plains_dirty; [exact PL|exact Pn|constructor; [apply plain_lcf_tmp|constructor]]. }
+    pose proof (closed_none _ _ Hcl0 PT Htmp r Pr) as En. rewrite <- app_assoc in En.
+    apply (proj1 (fs_get_None _ _) En m Hin).
+  - intros w ->. reflexivity.
+Qed.
